@@ -486,3 +486,6 @@ def run(res, tier):
         c11.wr3(p, res)
         c20.thr2(p, res)
         res.fn_count += n1 + n2 + n7
+    if tier == "thorough":
+        from . import witness
+        witness.check(res, ["W1ReadOnlyViews", "W2ScratchCarving", "W4NoDanglingTemporaries"])
